@@ -479,3 +479,104 @@ func KeysOf(keys []int) []Item {
 	}
 	return out
 }
+
+// ---- reference denotations of JSON documents (C12), as plain Go over possibly symbolic values ----
+
+// HasInt: x occurs in s (forks on symbolic equality, consistently with the path condition).
+func HasInt(s []int, x int) bool {
+	for _, y := range s {
+		if y == x {
+			return true
+		}
+	}
+	return false
+}
+
+// DedupFirst keeps the first occurrence of every value.
+func DedupFirst(vals []int) []int {
+	out := []int{}
+	for _, x := range vals {
+		if !HasInt(out, x) {
+			out = append(out, x)
+		}
+	}
+	return out
+}
+
+// SortedDistinct: ascending under the configured comparator, equivalent values once (the last one wins).
+func SortedDistinct(vals []int) []int {
+	out := []int{}
+	for _, x := range vals {
+		pos, dup := len(out), false
+		for i, y := range out {
+			if Equiv(x, y) {
+				pos, dup = i, true
+				break
+			}
+			if Less(x, y) {
+				pos = i
+				break
+			}
+		}
+		if dup {
+			out[pos] = x
+			continue
+		}
+		out = append(out, 0)
+		copy(out[pos+1:], out[pos:])
+		out[pos] = x
+	}
+	return out
+}
+
+// LastPerKey: keys in order of first occurrence, each with its last value.
+func LastPerKey(keys, vals []int) ([]int, []int) {
+	ok, ov := []int{}, []int{}
+	for i, k := range keys {
+		found := false
+		for j := range ok {
+			if ok[j] == k {
+				ov[j], found = vals[i], true
+				break
+			}
+		}
+		if !found {
+			ok, ov = append(ok, k), append(ov, vals[i])
+		}
+	}
+	return ok, ov
+}
+
+// SortPairs sorts pairs by key, ascending (keys pairwise distinct).
+func SortPairs(keys, vals []int) ([]int, []int) {
+	ok, ov := []int{}, []int{}
+	for i, k := range keys {
+		pos := len(ok)
+		for j, y := range ok {
+			if k < y {
+				pos = j
+				break
+			}
+		}
+		ok, ov = append(ok, 0), append(ov, 0)
+		copy(ok[pos+1:], ok[pos:])
+		copy(ov[pos+1:], ov[pos:])
+		ok[pos], ov[pos] = k, vals[i]
+	}
+	return ok, ov
+}
+
+func Reverse(s []int) []int {
+	out := make([]int, len(s))
+	for i, x := range s {
+		out[len(s)-1-i] = x
+	}
+	return out
+}
+
+func LastN(s []int, n int) []int {
+	if len(s) > n {
+		return s[len(s)-n:]
+	}
+	return s
+}
